@@ -27,6 +27,14 @@ SAMPLE = {"quick": 260, "thorough": 5000}       # per generator config
 RANDOM = {"quick": 150, "thorough": 2500}
 
 
+# the same service over an L1 that is reorged while it runs (specs/BridgeAPIReorg.tla)
+SPEC_R = "BridgeAPIReorg.tla"
+MODELS_R = {"quick": ["BridgeAPIReorg.cfg", "BridgeAPIReorgDrop.cfg"],
+            "thorough": ["BridgeAPIReorg.cfg", "BridgeAPIReorgDrop.cfg", "BridgeAPIReorgL2.cfg"]}
+GENS_R = ["BridgeAPIReorgGen.cfg", "BridgeAPIReorgGenL2.cfg"]
+SAMPLE_R = {"quick": 90, "thorough": 2500}
+RANDOM_R = {"quick": 60, "thorough": 1200}
+
 VARIANTS = ["offByOne", "bestOnSmall", "noInitTest", "wrongTree", "wrongRER"]
 SENS_CFG = """CONSTANTS
   H = 2
@@ -62,6 +70,15 @@ def to_case(c, every=True):
                 blocks=[dict(num=i + 1, evs=[dict(t=e["t"], r=e["r"], k=e["k"]) for e in b]) for i, b in enumerate(c["blocks"])])
 
 
+def to_reorg_case(c):
+    """TLC CASE line of BridgeAPIReorg.tla -> driver case: the old history, the number of blocks kept, the new history (the
+    blocks after the kept ones take the heights of the blocks they replace)"""
+    ev = lambda b: [dict(t=e["t"], r=e["r"], k=e["k"]) for e in b]
+    return dict(ours=c["ours"], n2=c["n2"], every=True, kept=c["kept"],
+                old=[dict(num=i + 1, evs=ev(b)) for i, b in enumerate(c["old"])],
+                blocks=[dict(num=i + 1, evs=ev(b)) for i, b in enumerate(c["blocks"])])
+
+
 def n_events(case):
     return sum(len(b["evs"]) for b in case["blocks"])
 
@@ -77,14 +94,30 @@ def pick(cases, k, rng):
     return a + rng.sample(rest, min(len(rest), k - len(a)))
 
 
-def random_case(rng):
-    """a consistent joint history beyond the exhaustive bound: more bridges/leaves/blocks, block-number gaps, up to 3 rollups"""
+def random_case(rng, prefix=None):
+    """a consistent joint history beyond the exhaustive bound: more bridges/leaves/blocks, block-number gaps, up to 3 rollups.
+    prefix = (case, kept): a history that shares its first `kept` blocks with that case and goes on differently"""
     ours = rng.choice([1, 1, 2, 3])
     others = [r for r in (1, 2, 3) if r != ours][:rng.choice([0, 1, 2])]
     n2 = rng.randrange(1, 7)
     max_dep, max_info, max_ver, nblocks = rng.randrange(0, 7), rng.randrange(1, 11), rng.randrange(0, 7), rng.randrange(1, 9)
     n1, f, last_ger, deps, infos, vers = 0, {}, None, 0, 0, 0
     blocks, num = [], rng.choice([1, 1, 5, 1000])
+    if prefix is not None:
+        pc, kept = prefix
+        ours, n2 = pc["ours"], pc["n2"]
+        others = sorted(set(e["r"] for b in pc["blocks"] for e in b["evs"] if e["t"] == "ver" and e["r"] != ours) | set(others) - {ours})
+        blocks = [dict(num=b["num"], evs=list(b["evs"])) for b in pc["blocks"][:kept]]
+        for b in blocks:
+            for e in b["evs"]:
+                if e["t"] == "dep":
+                    n1 += 1
+                elif e["t"] == "info":
+                    last_ger = (n1, tuple(sorted(f.items())))
+                elif e["t"] == "ver" and e["k"] != 0:
+                    f[e["r"]] = e["k"]
+        num = pc["blocks"][kept]["num"] + rng.choice([0, 0, 0, 1])     # mostly the height of the first replaced block
+        nblocks = rng.randrange(1, 6)
     for _ in range(nblocks):
         evs = []
         for _ in range(rng.choice([0, 1, 1, 2, 3, 4, 6])):
@@ -111,9 +144,19 @@ def random_case(rng):
                 evs.append(dict(t="ver", r=r, k=k))
         blocks.append(dict(num=num, evs=evs))
         num += rng.choice([1, 1, 1, 2, 3, 7, 100, 12345])
-    while blocks and not blocks[0]["evs"]:
+    while prefix is None and blocks and not blocks[0]["evs"]:
         blocks.pop(0)
     return dict(ours=ours, n2=n2, every=True, blocks=blocks)
+
+
+def random_reorg_case(rng):
+    while True:
+        old = random_case(rng)
+        if len(old["blocks"]) >= 2:
+            break
+    kept = rng.randrange(0, len(old["blocks"]))
+    new = random_case(rng, prefix=(old, kept))
+    return dict(ours=old["ours"], n2=old["n2"], every=True, kept=kept, old=old["blocks"], blocks=new["blocks"])
 
 
 def validate_parallel(tf, sc, ntraces):
@@ -238,20 +281,27 @@ def body():
         tier = res.tier
         rng = random.Random(V.seed())
         rb = V.replay_behaviours()
-        jobs = [("mc", c) for c in MODELS[tier]] + ([("gen", c) for c in GENS[tier]] + [("sens", v) for v in VARIANTS] if rb is None else [])
+        jobs = [("mc", c) for c in MODELS[tier]] + [("mcr", c) for c in MODELS_R[tier]] + \
+               ([("gen", c) for c in GENS[tier]] + [("genr", c) for c in GENS_R] + [("sens", v) for v in VARIANTS] if rb is None else [])
         nw = max(2, 16 // len([j for j in jobs if j[0] != "sens"]))
 
         def run(job):
             kind, cfg = job
             if kind == "mc":
                 return V.model_check(SPEC, cfg, sc, timeout=2400, heap="8g", workers=nw)
+            if kind == "mcr":
+                return V.model_check(SPEC_R, cfg, sc, timeout=2400, heap="6g", workers=nw)
+            if kind == "genr":
+                return V.export_cases(SPEC_R, cfg, sc, timeout=2400, heap="6g", workers=nw)
             if kind == "sens":
                 return sensitivity(cfg, sc)
             return V.export_cases(SPEC, cfg, sc, timeout=2400, heap="6g", workers=nw)
 
         with cf.ThreadPoolExecutor(max_workers=len(jobs)) as ex:
             results = list(ex.map(run, jobs))
-        mcs = [r for (k, _), r in zip(jobs, results) if k == "mc"]
+        mcs = [r for (k, _), r in zip(jobs, results) if k in ("mc", "mcr")]
+        # a design TLC must refute: answered lookups remembered across a reorg of the stores
+        keep = V.model_counterexample(SPEC_R, "BridgeAPIReorgKeep.cfg", "InvR", sc, timeout=600)
         gstats, behs, expect = [], [], []
         if rb is None:
             for (k, cfg), r in zip(jobs, results):
@@ -267,9 +317,23 @@ def body():
                 for case, exp in chosen:
                     behs.append(case)
                     expect.append(exp)
+            for (k, cfg), r in zip(jobs, results):
+                if k != "genr":
+                    continue
+                cases, gst = r
+                rc = [to_reorg_case(c) for c in cases]
+                rc.sort(key=lambda c: (-n_events(c) - sum(len(b["evs"]) for b in c["old"]), json.dumps(c, sort_keys=True)))
+                nS = SAMPLE_R[tier]
+                chosen = rc if len(rc) <= nS else rng.sample(rc[:max(nS, len(rc) // 3)], (2 * nS) // 3) + rng.sample(rc[len(rc) // 3:], nS - (2 * nS) // 3)
+                gstats.append(dict(cfg=cfg, histories=len(rc), replayed=len(chosen), states=gst["distinct"]))
+                behs += chosen
+                expect += [None] * len(chosen)
             n_model = len(behs)
             for _ in range(RANDOM[tier]):
                 behs.append(random_case(rng))
+                expect.append(None)
+            for _ in range(RANDOM_R[tier]):
+                behs.append(random_reorg_case(rng))
                 expect.append(None)
         else:
             behs, expect, n_model = rb, [None] * len(rb), 0
@@ -335,13 +399,16 @@ def body():
             rule="behaviours = joint L1/L2 histories: every reachable history of BridgeAPI.tla under the generator configs (each TLC state is "
                  "one history; seeded sample biased to the longer ones in the quick tier) + seeded random larger histories (block gaps, up to "
                  "3 rollups); every history is replayed into fresh real stores with a snapshot of all claim-flow requests after every L1 "
-                 "block; evaluations = HTTP answers judged by TLC (lookups + claim proofs of covering pairs + injected leaves); non-trivial = "
+                 "block; + histories with a reorg of the L1 while the service keeps running (BridgeAPIReorg.tla: the old history, Reorg on both "
+                 "L1 stores, another continuation; from the model and random), a snapshot after every block and after the reorg; evaluations = HTTP answers judged by TLC (lookups + claim proofs of covering pairs + injected leaves); non-trivial = "
                  "distinct histories whose last snapshot has a lookup answered with an index and a claim proof with a non-zero sibling",
             models=[dict(cfg=m["cfg"], states=m["distinct"], transitions=m["generated"], depth=m["depth"], wall_s=m["wall_s"]) for m in mcs],
             model_invariants=["IndexSafe", "ErrorsExplained", "ClaimOK"],
             model_sensitivity="wrong variants of the spec rejected by the invariants: %s" % ", ".join(
                 r for (k, _), r in zip(jobs, results) if k == "sens"),
             generators=gstats, from_model=n_model, random_histories=len(behs) - n_model,
+            reorg_histories=sum(1 for b in behs if b.get("old")),
+            refuted_design=keep,
             judged=stats,
             model_conformance=dict(lookup_answers_compared=compared, drift=drift),
             monitor=dict(spec=MON, tlc_runs=len(infos), wall_s=round(sum(i["wall_s"] for i in infos), 1)),
